@@ -19,9 +19,9 @@ RULE = ("case = one API point of the table (index = case mod table size; argumen
 ASAN = "abort_on_error=1:detect_leaks=0:allocator_may_return_null=1:handle_abort=0:detect_stack_use_after_return=0:malloc_context_size=12"
 
 STEPS = [
-    dict(flavor="asan", harness="h_locks", args=[], cases=dict(quick=480, thorough=576),
+    dict(flavor="asan", harness="h_locks", args=[], cases=dict(quick=480, thorough=1920),
          env={"ASAN_OPTIONS": ASAN}, timeout=dict(quick=600, thorough=3000)),
-    dict(flavor="asan", harness="h_locks", args=["--mode", "debuglocks"], cases=dict(quick=96, thorough=192), seed_off=101,
+    dict(flavor="asan", harness="h_locks", args=["--mode", "debuglocks"], cases=dict(quick=96, thorough=576), seed_off=101,
          env={"ASAN_OPTIONS": ASAN}, timeout=dict(quick=600, thorough=3000)),
 ]
 
